@@ -494,6 +494,17 @@ pub fn c11_seq_families(tier: &str) -> Vec<SeqSpec> {
     fams.push(spec("C11-A1/T300", &["T300"], k3(), a1(), if t { 6 } else { 4 }, ck).flush());
     fams.push(spec("C11-full/T300", &["T300", "T300n"], k3(), a_c11(), if t { 5 } else { 3 }, ck).flush());
     fams.push(spec("C11-full/M2", &["M2", "M2n"], k3(), a_c11(), if t { 5 } else { 3 }, ck).lazy());
+    // seek-triggered compactions (incl. trivial moves of a single file) followed by more work
+    let a_seek = vec![
+        Op::Put(0, 0),
+        Op::Put(2, 0),
+        Op::Del(0),
+        Op::Batch(vec![(0, true), (2, true)]),
+        Op::Batch(vec![(0, true), (1, true)]),
+        Op::GetMany(3, 128),
+        Op::Compact(None, None),
+    ];
+    fams.push(spec("C11-seek/T300", &["T300"], k4(), a_seek, if t { 7 } else { 5 }, ck).flush());
     fams
 }
 
